@@ -382,11 +382,10 @@ func checkRT(c RTCase) (msg string, nontrivial bool, classes []string) {
 		}
 		classes = append(classes, "xz-subprocess-checked")
 
-		// TODO(E3 harness): the Wuffs std/lzma and std/xz decoders are built by a
-		// separate C harness. When VERIF_STDH_DECODE names its executable it is run
-		// as `$VERIF_STDH_DECODE lzma|xz < file > out`.
+		// The Wuffs std/lzma and std/xz decoders are reached through the E3 harness
+		// (VERIF_STDH_DECODE names its sanitizer-built executable, see wuffsdec_test.go).
 		if h := os.Getenv("VERIF_STDH_DECODE"); h != "" {
-			out, m := runTool(h, []string{c.Format}, file)
+			out, m := wuffsDecode(h, c.Format, file)
 			if strings.HasPrefix(m, inconclusive) {
 				return m, false, nil
 			}
